@@ -9,7 +9,7 @@ from core import Case, CheckBroken
 
 PID = "C01"
 LEAN_MODULES = ["KrroodVerif.Props.C01", "KrroodVerif.Props.C01Union", "KrroodVerif.Props.C01Typed",
-                "KrroodVerif.Props.C01Quant"]
+                "KrroodVerif.Props.C01Quant", "KrroodVerif.Props.C01IR", "KrroodVerif.Props.C01IROr", "KrroodVerif.Props.C01IRVar"]
 THEOREMS = [
     "KrroodVerif.Eql.C01_cover",
     "KrroodVerif.Eql.C01_sound_complete_partial",
@@ -60,6 +60,32 @@ THEOREMS = [
     "KrroodVerif.Eql.C01_quant_need_A2",
     "KrroodVerif.Eql.C01_quant_need_shape",
     "KrroodVerif.Eql.C01_quant_need_scope",
+    # c01b: the interpreter of the translated evaluation methods agrees with the hand-written `eval` (Props/C01IR.lean)
+    "KrroodVerif.Eql.IR.runNode_not",
+    "KrroodVerif.Eql.IR.C01_runIR_eq_eval_not_partial",
+    "KrroodVerif.Eql.IR.loopSt_spec",
+    "KrroodVerif.Eql.IR.runNode_and",
+    "KrroodVerif.Eql.IR.C01_runIR_eq_eval_and_partial",
+    "KrroodVerif.Eql.IR.C01_runIR_eq_eval_closed_partial",
+    "KrroodVerif.Eql.IR.loopSt_specF",
+    "KrroodVerif.Eql.IR.or_right_call",
+    "KrroodVerif.Eql.IR.or_left_call",
+    "KrroodVerif.Eql.IR.runNode_elseIf",
+    "KrroodVerif.Eql.IR.C01_runIR_eq_eval_elseIf_partial",
+    "KrroodVerif.Eql.IR.runNode_union",
+    "KrroodVerif.Eql.IR.C01_runIR_eq_eval_union_partial",
+    "KrroodVerif.Eql.IR.C01_runIR_eq_eval_connectives_partial",
+    "KrroodVerif.Eql.IR.runNode_hasType",
+    "KrroodVerif.Eql.IR.C01_runIR_eq_eval_hasType_partial",
+    "KrroodVerif.Eql.IR.C01_runIR_eq_eval_truth_partial",
+    "KrroodVerif.Eql.IR.runNode_key",
+    "KrroodVerif.Eql.IR.C01_runIRTerm_var_operand",
+    "KrroodVerif.Eql.IR.C01_runIRTerm_lit_operand",
+    "KrroodVerif.Eql.IR.C01_runIR_eq_eval_frag_partial",
+    "KrroodVerif.Eql.IR.runNode_keyC",
+    "KrroodVerif.Eql.IR.C01_runIRTerm_var_cond",
+    "KrroodVerif.Eql.IR.C01_runIRTerm_lit_cond",
+    "KrroodVerif.Eql.IR.C01_runIR_eq_eval_frag2_partial",
 ]
 # second tie (translator): the table of construction-time rewrites regenerated from the current source equals the one
 # `build` transcribes and is admissible — the same two obligations as C02 (harness/translate/c02_translate.py)
